@@ -9,8 +9,8 @@ Definition preserve_sequence : list str := [[47;117;115;114]%N; [47;117;115;114;
 (* trigger priorities (class attribute, inherited from `base` when not overridden) *)
 Definition prot_priority : Z := (-100)%Z.
 Definition unmerge_priority : Z := 50%Z.
-(* errno values the rmdir loop of unmerge_contents ignores: ENOENT, ENOTDIR, EBUSY, EEXIST *)
-Definition rmdir_ignored : list N := [2%N; 20%N; 16%N; 17%N].
+(* errno values the rmdir loop of unmerge_contents ignores: ENOTEMPTY, ENOENT, ENOTDIR, EBUSY, EEXIST *)
+Definition rmdir_ignored : list N := [39%N; 2%N; 20%N; 16%N; 17%N].
 Definition E_NOENT : N := 2%N.
 Definition E_NOTDIR : N := 20%N.
 Definition E_NOTEMPTY : N := 39%N.
